@@ -12,3 +12,4 @@ import PPProofs.Props.C19
 #print axioms PP.Settings.users_untouched
 #print axioms PP.Settings.new_expr_after_exit
 #print axioms PP.Settings.default_ws_scope_partial
+#print axioms PP.Settings.forward_ws_scope_partial
